@@ -255,6 +255,11 @@ def rule_flow_unsync(ctx):
                 kec, ec = final_writes(p, 'entry_count')
                 r.instance(function=nid, event='update', weighted_size=fmt(ws)[:90] if ws else None, sub_old=sub_old, add_new=add_new,
                            stores_new_weight=stored, same_term=same, entry_count_untouched=ec is None)
+                # an update that establishes new == old weight on this path has nothing to re-account
+                same_weight = any(isinstance(c, tuple) and c[0] == 'cmp' and c[1] == 'eq' and v is True and any(isold(y) for y in (c[2], c[3])) and
+                                  any(isinstance(strip_cast(y), tuple) and strip_cast(y)[0] == 'param' for y in (c[2], c[3])) for c, v in p.conds)
+                if same_weight and ws is None:
+                    continue
                 if not (sub_old and add_new and same):
                     r.violate(nid, 'update-weight', 'weighted_size', 'an in-place update does not apply  -old_weight +new_weight  with the weight it stores in the entry',
                               where=ctx.where(nid), expected='weighted_size = weighted_size - old.policy_weight + new_weight; entry.policy_weight = new_weight')
